@@ -1158,11 +1158,16 @@ func buildExtras(c *core.Ctx) {
 									header = ph.Block()
 									if hif, isIf := header.Instrs[len(header.Instrs)-1].(*ssa.If); isIf {
 										cmp, isCmp := hif.Cond.(*ssa.BinOp)
-										okIdx = isCmp && cmp.Op == token.LSS && cmp.X == ssa.Value(inc)
-										if okIdx {
-											lc, isC := cmp.Y.(*ssa.Call)
-											okIdx = isC && lc.Call.Args[0] == ssa.Value(prefix)
+										// inc < len(prefix), in either orientation
+										var bound ssa.Value
+										switch {
+										case isCmp && cmp.Op == token.LSS && cmp.X == ssa.Value(inc):
+											bound = cmp.Y
+										case isCmp && cmp.Op == token.GTR && cmp.Y == ssa.Value(inc):
+											bound = cmp.X
 										}
+										lc, isC := bound.(*ssa.Call)
+										okIdx = isC && len(lc.Call.Args) == 1 && lc.Call.Args[0] == ssa.Value(prefix)
 									}
 								}
 							}
